@@ -152,6 +152,8 @@ impl SegmentLogWriter {
                     format!("Failed to flush log file: {}. {error}", self.file_path)
                 })
                 .map_err(|_| IggyError::CannotWriteToFile)?;
+            #[cfg(feature = "iggy_verif")]
+            crate::verif::fs_event("log_append", &self.file_path).await;
 
             Ok(())
         } else {
